@@ -29,17 +29,29 @@ func (pConn *PFCPConn) handleSessionEstablishmentRequest(msg message.Message) (m
 	}
 
 	errUnmarshalReply := func(err error, offendingIE *ie.IE) (message.Message, error) {
+		ies := []*ie.IE{ie.NewCause(ie.CauseRequestRejected)}
+		if offendingIE != nil {
+			ies = append(ies, offendingIE)
+		}
+
 		// Build response message
 		pfdres := message.NewSessionEstablishmentResponse(0,
 			0,
 			0,
 			sereq.SequenceNumber,
 			0,
-			ie.NewCause(ie.CauseRequestRejected),
-			offendingIE,
+			ies...,
 		)
 
 		return pfdres, errUnmarshal(err)
+	}
+
+	if sereq.NodeID == nil {
+		return errUnmarshalReply(ErrNotFound("Node ID IE"), nil)
+	}
+
+	if sereq.CPFSEID == nil {
+		return errUnmarshalReply(ErrNotFound("CP F-SEID IE"), nil)
 	}
 
 	nodeID, err := sereq.NodeID.NodeID()
